@@ -10,6 +10,9 @@ Model/Clause.vos Model/Clause.vok Model/Clause.required_vos: Model/Clause.v Mode
 Model/Order.vo Model/Order.glob Model/Order.v.beautified Model/Order.required_vo: Model/Order.v Model/Term.vo Model/Unify.vo
 Model/Order.vio: Model/Order.v Model/Term.vio Model/Unify.vio
 Model/Order.vos Model/Order.vok Model/Order.required_vos: Model/Order.v Model/Term.vos Model/Unify.vos
+Model/Groups.vo Model/Groups.glob Model/Groups.v.beautified Model/Groups.required_vo: Model/Groups.v 
+Model/Groups.vio: Model/Groups.v 
+Model/Groups.vos Model/Groups.vok Model/Groups.required_vos: Model/Groups.v 
 Model/GoInt.vo Model/GoInt.glob Model/GoInt.v.beautified Model/GoInt.required_vo: Model/GoInt.v 
 Model/GoInt.vio: Model/GoInt.v 
 Model/GoInt.vos Model/GoInt.vok Model/GoInt.required_vos: Model/GoInt.v 
@@ -28,12 +31,12 @@ Model/Eval.vos Model/Eval.vok Model/Eval.required_vos: Model/Eval.v Model/GoInt.
 Model/EvalCheck.vo Model/EvalCheck.glob Model/EvalCheck.v.beautified Model/EvalCheck.required_vo: Model/EvalCheck.v Model/GoInt.vo Model/F64.vo Model/Num.vo Gen/Arith_gen.vo Model/Eval.vo
 Model/EvalCheck.vio: Model/EvalCheck.v Model/GoInt.vio Model/F64.vio Model/Num.vio Gen/Arith_gen.vio Model/Eval.vio
 Model/EvalCheck.vos Model/EvalCheck.vok Model/EvalCheck.required_vos: Model/EvalCheck.v Model/GoInt.vos Model/F64.vos Model/Num.vos Gen/Arith_gen.vos Model/Eval.vos
-Model/Machine.vo Model/Machine.glob Model/Machine.v.beautified Model/Machine.required_vo: Model/Machine.v Model/Term.vo Model/Unify.vo Model/Clause.vo Model/Order.vo Model/GoInt.vo Model/F64.vo Model/Num.vo Gen/Arith_gen.vo Model/Eval.vo
-Model/Machine.vio: Model/Machine.v Model/Term.vio Model/Unify.vio Model/Clause.vio Model/Order.vio Model/GoInt.vio Model/F64.vio Model/Num.vio Gen/Arith_gen.vio Model/Eval.vio
-Model/Machine.vos Model/Machine.vok Model/Machine.required_vos: Model/Machine.v Model/Term.vos Model/Unify.vos Model/Clause.vos Model/Order.vos Model/GoInt.vos Model/F64.vos Model/Num.vos Gen/Arith_gen.vos Model/Eval.vos
-Model/Sld.vo Model/Sld.glob Model/Sld.v.beautified Model/Sld.required_vo: Model/Sld.v Model/Term.vo Model/Unify.vo Model/Order.vo Model/GoInt.vo Model/F64.vo Model/Num.vo Gen/Arith_gen.vo Model/Eval.vo Model/Machine.vo
-Model/Sld.vio: Model/Sld.v Model/Term.vio Model/Unify.vio Model/Order.vio Model/GoInt.vio Model/F64.vio Model/Num.vio Gen/Arith_gen.vio Model/Eval.vio Model/Machine.vio
-Model/Sld.vos Model/Sld.vok Model/Sld.required_vos: Model/Sld.v Model/Term.vos Model/Unify.vos Model/Order.vos Model/GoInt.vos Model/F64.vos Model/Num.vos Gen/Arith_gen.vos Model/Eval.vos Model/Machine.vos
+Model/Machine.vo Model/Machine.glob Model/Machine.v.beautified Model/Machine.required_vo: Model/Machine.v Model/Term.vo Model/Unify.vo Model/Clause.vo Model/Order.vo Model/Groups.vo Model/GoInt.vo Model/F64.vo Model/Num.vo Gen/Arith_gen.vo Model/Eval.vo
+Model/Machine.vio: Model/Machine.v Model/Term.vio Model/Unify.vio Model/Clause.vio Model/Order.vio Model/Groups.vio Model/GoInt.vio Model/F64.vio Model/Num.vio Gen/Arith_gen.vio Model/Eval.vio
+Model/Machine.vos Model/Machine.vok Model/Machine.required_vos: Model/Machine.v Model/Term.vos Model/Unify.vos Model/Clause.vos Model/Order.vos Model/Groups.vos Model/GoInt.vos Model/F64.vos Model/Num.vos Gen/Arith_gen.vos Model/Eval.vos
+Model/Sld.vo Model/Sld.glob Model/Sld.v.beautified Model/Sld.required_vo: Model/Sld.v Model/Term.vo Model/Unify.vo Model/Order.vo Model/Groups.vo Model/GoInt.vo Model/F64.vo Model/Num.vo Gen/Arith_gen.vo Model/Eval.vo Model/Machine.vo
+Model/Sld.vio: Model/Sld.v Model/Term.vio Model/Unify.vio Model/Order.vio Model/Groups.vio Model/GoInt.vio Model/F64.vio Model/Num.vio Gen/Arith_gen.vio Model/Eval.vio Model/Machine.vio
+Model/Sld.vos Model/Sld.vok Model/Sld.required_vos: Model/Sld.v Model/Term.vos Model/Unify.vos Model/Order.vos Model/Groups.vos Model/GoInt.vos Model/F64.vos Model/Num.vos Gen/Arith_gen.vos Model/Eval.vos Model/Machine.vos
 Gen/Bootstrap_gen.vo Gen/Bootstrap_gen.glob Gen/Bootstrap_gen.v.beautified Gen/Bootstrap_gen.required_vo: Gen/Bootstrap_gen.v Model/Term.vo
 Gen/Bootstrap_gen.vio: Gen/Bootstrap_gen.v Model/Term.vio
 Gen/Bootstrap_gen.vos Gen/Bootstrap_gen.vok Gen/Bootstrap_gen.required_vos: Gen/Bootstrap_gen.v Model/Term.vos
@@ -64,3 +67,9 @@ Props/C03.vos Props/C03.vok Props/C03.required_vos: Props/C03.v Model/Term.vos M
 Props/C04.vo Props/C04.glob Props/C04.v.beautified Props/C04.required_vo: Props/C04.v Model/Term.vo Model/Unify.vo Model/Clause.vo Model/Machine.vo Proofs/Promise.vo Proofs/Trampoline.vo Model/Boot.vo
 Props/C04.vio: Props/C04.v Model/Term.vio Model/Unify.vio Model/Clause.vio Model/Machine.vio Proofs/Promise.vio Proofs/Trampoline.vio Model/Boot.vio
 Props/C04.vos Props/C04.vok Props/C04.required_vos: Props/C04.v Model/Term.vos Model/Unify.vos Model/Clause.vos Model/Machine.vos Proofs/Promise.vos Proofs/Trampoline.vos Model/Boot.vos
+Proofs/Groups.vo Proofs/Groups.glob Proofs/Groups.v.beautified Proofs/Groups.required_vo: Proofs/Groups.v Model/Groups.vo
+Proofs/Groups.vio: Proofs/Groups.v Model/Groups.vio
+Proofs/Groups.vos Proofs/Groups.vok Proofs/Groups.required_vos: Proofs/Groups.v Model/Groups.vos
+Props/C11.vo Props/C11.glob Props/C11.v.beautified Props/C11.required_vo: Props/C11.v Model/Groups.vo Proofs/Groups.vo Model/Term.vo Model/Machine.vo Model/Boot.vo
+Props/C11.vio: Props/C11.v Model/Groups.vio Proofs/Groups.vio Model/Term.vio Model/Machine.vio Model/Boot.vio
+Props/C11.vos Props/C11.vok Props/C11.required_vos: Props/C11.v Model/Groups.vos Proofs/Groups.vos Model/Term.vos Model/Machine.vos Model/Boot.vos
